@@ -170,120 +170,119 @@ def bep_rules(run, repo):
 def bep_instance(run, repo, bci, desc, order, tag):
     n = 0
     quick_witness = order is not None and run.tier != 'thorough'
-    if True:
-        I = Interp(repo, order=order)
-        D = I.D
-        T, P = D.sym('T'), D.sym('P')
-        rxn, rs, ps, ts = reaction(I, repo, 'pmutt.reaction.Reaction', nts=0)
-        # through the public constructor: where the class keeps slope and intercept is its own business; the rule
-        # recognises them by the symbols it handed in
-        bep = I.construct(bci, [], {'slope': D.sym('bep.slope'), 'intercept': D.sym('bep.intercept'), 'name': 'bep',
-                                    'descriptor': desc}, name='bep')
-        if isinstance(bep, Raised):
-            raise Unsupported('BEP(slope, intercept, name, descriptor=%r) raised %s' % (desc, bep.exc))
-        set_public(I, rxn, 'transition_state', ListV([bep]))
-        set_public(I, rxn, 'transition_state_stoich', ListV([C(1)]))
-        kw = {'T': T, 'P': P}
-        owner, fn = repo.find_method(bci, 'get_E_act')
-        Ef = I.call_method(bep, 'get_E_act', [], dict(kw, units='kcal/mol', reaction=rxn, rev=False))
-        Er = I.call_method(bep, 'get_E_act', [], dict(kw, units='kcal/mol', reaction=rxn, rev=True))
-        Rk = D.sym('kb') * D.sym('Na') * D.sym('U<kcal>')
-        q = 'get_HoRT' if desc.endswith('_H') else 'get_EoRT'
-        if 'delta' in desc:
-            # forward minus reverse barrier == reaction enthalpy (energy) in the forward direction
-            kwq = dict(kw) if q == 'get_HoRT' else dict(kw)
-            dq = expected_delta(I, rxn, q, kwq, False, False) * Rk * T
-            run.check(same(Ef - Er, dq), 'ALG.bep-difference', 'BEP.get_E_act', 'descriptor:' + desc + tag,
-                      'forward minus reverse barrier is %s, not the reaction %s'
-                      % (show(Ef - Er, 200), 'enthalpy' if q == 'get_HoRT' else 'electronic energy'),
-                      owner.module, fn, sample='BEP[%s]: E_act(fwd) - E_act(rev) == delta %s' % (desc, q[4]))
-            n += 1
-        # slope bookkeeping on every descriptor x direction
-        slope, icpt = D.sym('bep.slope'), D.sym('bep.intercept')
-        # the barrier is linear in the slope: its slope-derivative is the descriptor value the relation used
-        # (read off the public get_E_act, whatever private helper evaluates it)
-        if not (isinstance(Ef, Rat) and isinstance(Er, Rat)):
-            run.fail('REF.bep-descriptor', 'BEP.get_E_act', 'descriptor:' + desc + tag,
-                     'get_E_act did not produce a value: %s / %s' % (show(Ef, 120), show(Er, 120)), owner.module, fn)
-            n += 1
-            return n
-        dval = D.d(Ef, 'bep.slope')
-        # the descriptor named is the quantity evaluated (documented table of descriptors)
-        if 'delta' in desc:
-            want_d = expected_delta(I, rxn, q, kw, desc.startswith('rev_'), False) * Rk * T
-        else:
-            kws = dict(kw, include_ZPE=False) if q == 'get_EoRT' else kw
-            want_d = expected_state(I, rxn, desc.split('_')[0], q, kws) * Rk * T
-        run.check(same(dval, want_d) and same(D.d(Er, 'bep.slope'), want_d), 'REF.bep-descriptor', 'BEP.get_E_act',
-                  'descriptor:' + desc + tag,
-                  'descriptor %r enters the barrier as %s (forward) / %s (reverse), expected %s in kcal/mol'
-                  % (desc, show(dval, 160), show(D.d(Er, 'bep.slope'), 160), show(want_d, 160)),
-                  owner.module, fn)
+    I = Interp(repo, order=order)
+    D = I.D
+    T, P = D.sym('T'), D.sym('P')
+    rxn, rs, ps, ts = reaction(I, repo, 'pmutt.reaction.Reaction', nts=0)
+    # through the public constructor: where the class keeps slope and intercept is its own business; the rule
+    # recognises them by the symbols it handed in
+    bep = I.construct(bci, [], {'slope': D.sym('bep.slope'), 'intercept': D.sym('bep.intercept'), 'name': 'bep',
+                                'descriptor': desc}, name='bep')
+    if isinstance(bep, Raised):
+        raise Unsupported('BEP(slope, intercept, name, descriptor=%r) raised %s' % (desc, bep.exc))
+    set_public(I, rxn, 'transition_state', ListV([bep]))
+    set_public(I, rxn, 'transition_state_stoich', ListV([C(1)]))
+    kw = {'T': T, 'P': P}
+    owner, fn = repo.find_method(bci, 'get_E_act')
+    Ef = I.call_method(bep, 'get_E_act', [], dict(kw, units='kcal/mol', reaction=rxn, rev=False))
+    Er = I.call_method(bep, 'get_E_act', [], dict(kw, units='kcal/mol', reaction=rxn, rev=True))
+    Rk = D.sym('kb') * D.sym('Na') * D.sym('U<kcal>')
+    q = 'get_HoRT' if desc.endswith('_H') else 'get_EoRT'
+    if 'delta' in desc:
+        # forward minus reverse barrier == reaction enthalpy (energy) in the forward direction
+        kwq = dict(kw) if q == 'get_HoRT' else dict(kw)
+        dq = expected_delta(I, rxn, q, kwq, False, False) * Rk * T
+        run.check(same(Ef - Er, dq), 'ALG.bep-difference', 'BEP.get_E_act', 'descriptor:' + desc + tag,
+                  'forward minus reverse barrier is %s, not the reaction %s'
+                  % (show(Ef - Er, 200), 'enthalpy' if q == 'get_HoRT' else 'electronic energy'),
+                  owner.module, fn, sample='BEP[%s]: E_act(fwd) - E_act(rev) == delta %s' % (desc, q[4]))
         n += 1
+    # slope bookkeeping on every descriptor x direction
+    slope, icpt = D.sym('bep.slope'), D.sym('bep.intercept')
+    # the barrier is linear in the slope: its slope-derivative is the descriptor value the relation used
+    # (read off the public get_E_act, whatever private helper evaluates it)
+    if not (isinstance(Ef, Rat) and isinstance(Er, Rat)):
+        run.fail('REF.bep-descriptor', 'BEP.get_E_act', 'descriptor:' + desc + tag,
+                 'get_E_act did not produce a value: %s / %s' % (show(Ef, 120), show(Er, 120)), owner.module, fn)
+        n += 1
+        return n
+    dval = D.d(Ef, 'bep.slope')
+    # the descriptor named is the quantity evaluated (documented table of descriptors)
+    if 'delta' in desc:
+        want_d = expected_delta(I, rxn, q, kw, desc.startswith('rev_'), False) * Rk * T
+    else:
+        kws = dict(kw, include_ZPE=False) if q == 'get_EoRT' else kw
+        want_d = expected_state(I, rxn, desc.split('_')[0], q, kws) * Rk * T
+    run.check(same(dval, want_d) and same(D.d(Er, 'bep.slope'), want_d), 'REF.bep-descriptor', 'BEP.get_E_act',
+              'descriptor:' + desc + tag,
+              'descriptor %r enters the barrier as %s (forward) / %s (reverse), expected %s in kcal/mol'
+              % (desc, show(dval, 160), show(D.d(Er, 'bep.slope'), 160), show(want_d, 160)),
+              owner.module, fn)
+    n += 1
+    for rev, E in ((False, Ef), (True, Er)):
+        if 'rev_delta' in desc:
+            adj = slope if rev else slope - 1
+        else:
+            adj = slope - 1 if rev else slope
+        run.check(same(E, adj * dval + icpt), 'REF.bep', 'BEP.get_E_act', 'descriptor:%s rev=%s%s' % (desc, rev, tag),
+                  'barrier is %s, expected (slope%s)*descriptor + intercept'
+                  % (show(E, 200), '' if same(adj, slope) else ' - 1'), owner.module, fn)
+        n += 1
+    # the same barrier through the reaction's transition-state enthalpy
+    o2, f2 = repo.find_method(bci, 'get_HoRT')
+    for rev, E in ((False, Ef), (True, Er)):
+        if q != 'get_HoRT' or 'delta' not in desc:
+            continue
+        via = I.call_method(rxn, 'get_delta_HoRT', [], dict(kw, rev=rev, act=True))
+        run.check(same(via, E / (Rk * T)), 'ALG.bep-as-TS', 'BEP.get_HoRT', 'descriptor:%s rev=%s%s' % (desc, rev, tag),
+                  'activation enthalpy through the BEP transition state is %s but the relation itself gives %s'
+                  % (show(via, 200), show(E / (Rk * T), 200)), o2.module, f2,
+                  sample='Reaction(TS=BEP[%s]).get_delta_HoRT(act, rev=%s) == BEP.get_EoRT_act' % (desc, rev))
+        n += 1
+    # the same relation in the other unit systems of the barrier (the intercept is documented in kcal/mol)
+    for u in DIM_UNITS:
+        if u == 'kcal/mol' or quick_witness:
+            continue
+        Ru = gas_constant(I, u)
+        Eu = {}
         for rev, E in ((False, Ef), (True, Er)):
-            if 'rev_delta' in desc:
-                adj = slope if rev else slope - 1
-            else:
-                adj = slope - 1 if rev else slope
-            run.check(same(E, adj * dval + icpt), 'REF.bep', 'BEP.get_E_act', 'descriptor:%s rev=%s%s' % (desc, rev, tag),
-                      'barrier is %s, expected (slope%s)*descriptor + intercept'
-                      % (show(E, 200), '' if same(adj, slope) else ' - 1'), owner.module, fn)
+            Eu[rev] = I.call_method(bep, 'get_E_act', [], dict(kw, units=u, reaction=rxn, rev=rev))
+            wu = (adj_slope(desc, rev, slope) * want_d + icpt) * Ru / Rk
+            run.check(isinstance(Eu[rev], Rat) and same(Eu[rev], wu), 'REF.bep', 'BEP.get_E_act',
+                      'descriptor:%s rev=%s units=%s%s' % (desc, rev, u, tag),
+                      'barrier in %s is %s, expected ((slope%s)*descriptor + intercept) converted from kcal/mol: %s'
+                      % (u, show(Eu[rev], 200), '' if same(adj_slope(desc, rev, slope), slope) else ' - 1',
+                         show(wu, 200)), owner.module, fn)
             n += 1
-        # the same barrier through the reaction's transition-state enthalpy
-        o2, f2 = repo.find_method(bci, 'get_HoRT')
-        for rev, E in ((False, Ef), (True, Er)):
-            if q != 'get_HoRT' or 'delta' not in desc:
-                continue
-            via = I.call_method(rxn, 'get_delta_HoRT', [], dict(kw, rev=rev, act=True))
-            run.check(same(via, E / (Rk * T)), 'ALG.bep-as-TS', 'BEP.get_HoRT', 'descriptor:%s rev=%s%s' % (desc, rev, tag),
-                      'activation enthalpy through the BEP transition state is %s but the relation itself gives %s'
-                      % (show(via, 200), show(E / (Rk * T), 200)), o2.module, f2,
-                      sample='Reaction(TS=BEP[%s]).get_delta_HoRT(act, rev=%s) == BEP.get_EoRT_act' % (desc, rev))
+        if 'delta' in desc and isinstance(Eu[False], Rat) and isinstance(Eu[True], Rat):
+            dqu = expected_delta(I, rxn, q, kw, False, False) * Ru * T
+            run.check(same(Eu[False] - Eu[True], dqu), 'ALG.bep-difference', 'BEP.get_E_act',
+                      'descriptor:%s units=%s%s' % (desc, u, tag),
+                      'forward minus reverse barrier in %s is %s, not the reaction %s %s'
+                      % (u, show(Eu[False] - Eu[True], 200), 'enthalpy' if q == 'get_HoRT' else 'electronic energy',
+                         show(dqu, 200)), owner.module, fn)
             n += 1
-        # the same relation in the other unit systems of the barrier (the intercept is documented in kcal/mol)
-        for u in DIM_UNITS:
-            if u == 'kcal/mol' or quick_witness:
-                continue
-            Ru = gas_constant(I, u)
-            Eu = {}
-            for rev, E in ((False, Ef), (True, Er)):
-                Eu[rev] = I.call_method(bep, 'get_E_act', [], dict(kw, units=u, reaction=rxn, rev=rev))
-                wu = (adj_slope(desc, rev, slope) * want_d + icpt) * Ru / Rk
-                run.check(isinstance(Eu[rev], Rat) and same(Eu[rev], wu), 'REF.bep', 'BEP.get_E_act',
-                          'descriptor:%s rev=%s units=%s%s' % (desc, rev, u, tag),
-                          'barrier in %s is %s, expected ((slope%s)*descriptor + intercept) converted from kcal/mol: %s'
-                          % (u, show(Eu[rev], 200), '' if same(adj_slope(desc, rev, slope), slope) else ' - 1',
-                             show(wu, 200)), owner.module, fn)
-                n += 1
-            if 'delta' in desc and isinstance(Eu[False], Rat) and isinstance(Eu[True], Rat):
-                dqu = expected_delta(I, rxn, q, kw, False, False) * Ru * T
-                run.check(same(Eu[False] - Eu[True], dqu), 'ALG.bep-difference', 'BEP.get_E_act',
-                          'descriptor:%s units=%s%s' % (desc, u, tag),
-                          'forward minus reverse barrier in %s is %s, not the reaction %s %s'
-                          % (u, show(Eu[False] - Eu[True], 200), 'enthalpy' if q == 'get_HoRT' else 'electronic energy',
-                             show(dqu, 200)), owner.module, fn)
-                n += 1
-                if q == 'get_HoRT':
-                    for rev in (False, True):
-                        via = I.call_method(rxn, 'get_delta_H', [], dict(kw, units=u, rev=rev, act=True))
-                        run.check(same(via, Eu[rev]), 'ALG.bep-as-TS', 'BEP.get_HoRT',
-                                  'descriptor:%s rev=%s units=%s%s' % (desc, rev, u, tag),
-                                  'activation enthalpy through the BEP transition state is %s %s but the relation '
-                                  'itself gives %s' % (show(via, 200), u, show(Eu[rev], 200)), o2.module, f2)
-                        n += 1
-        # U and H offsets use the same barrier
-        o3, f3 = repo.find_method(bci, 'get_UoRT')
-        U = I.call_method(bep, 'get_UoRT', [], dict(kw, reaction=rxn))
-        H = I.call_method(bep, 'get_HoRT', [], dict(kw, reaction=rxn))
-        Ur = expected_state(I, rxn, 'reactants', 'get_UoRT', kw)
-        Hr = expected_state(I, rxn, 'reactants', 'get_HoRT', kw)
-        run.check(same(U - Ur, H - Hr), 'SIB.bep-offsets', 'BEP.get_UoRT', 'same-barrier' + tag,
-                  '[descriptor %s] internal-energy offset over the reactants is %s but the enthalpy offset is %s: '
-                  'they must use the same (forward) barrier' % (desc, show(U - Ur, 160), show(H - Hr, 160)),
-                  o3.module, f3)
-        run.check(same(H - Hr, Ef / (Rk * T)), 'REF.bep', 'BEP.get_HoRT', 'descriptor:' + desc + tag,
-                  'enthalpy of the BEP transition state is not reactants + forward barrier', o2.module, f2)
-        n += 2
+            if q == 'get_HoRT':
+                for rev in (False, True):
+                    via = I.call_method(rxn, 'get_delta_H', [], dict(kw, units=u, rev=rev, act=True))
+                    run.check(same(via, Eu[rev]), 'ALG.bep-as-TS', 'BEP.get_HoRT',
+                              'descriptor:%s rev=%s units=%s%s' % (desc, rev, u, tag),
+                              'activation enthalpy through the BEP transition state is %s %s but the relation '
+                              'itself gives %s' % (show(via, 200), u, show(Eu[rev], 200)), o2.module, f2)
+                    n += 1
+    # U and H offsets use the same barrier
+    o3, f3 = repo.find_method(bci, 'get_UoRT')
+    U = I.call_method(bep, 'get_UoRT', [], dict(kw, reaction=rxn))
+    H = I.call_method(bep, 'get_HoRT', [], dict(kw, reaction=rxn))
+    Ur = expected_state(I, rxn, 'reactants', 'get_UoRT', kw)
+    Hr = expected_state(I, rxn, 'reactants', 'get_HoRT', kw)
+    run.check(same(U - Ur, H - Hr), 'SIB.bep-offsets', 'BEP.get_UoRT', 'same-barrier' + tag,
+              '[descriptor %s] internal-energy offset over the reactants is %s but the enthalpy offset is %s: '
+              'they must use the same (forward) barrier' % (desc, show(U - Ur, 160), show(H - Hr, 160)),
+              o3.module, f3)
+    run.check(same(H - Hr, Ef / (Rk * T)), 'REF.bep', 'BEP.get_HoRT', 'descriptor:' + desc + tag,
+              'enthalpy of the BEP transition state is not reactants + forward barrier', o2.module, f2)
+    n += 2
     return n
 
 
@@ -581,17 +580,28 @@ def check(run, repo):
         'afterwards) with the gas species last, in the middle and (SurfaceReaction) first. get_H_act/get_G_act are '
         'the dimensionless getters times R(units) T for both classes, both directions and several unit systems; the '
         'BEP laws hold in J/mol and eV as in kcal/mol; a transition state (or reactant) without a partition function '
-        'gives the entropy-route factor of the direction asked for.')
+        'gives the entropy-route factor of the direction asked for. Round 2 of the white-box review: every reaction '
+        'object is asked several times (other pressure at the same temperature, other temperature, the first '
+        'conditions again) and each answer has the reference of its own call, so that anything remembered between '
+        'calls shows; get_A of the two kinetic classes is also asked with include_entropy=False on steps with two and '
+        'three surface reactants, in the reverse direction, and by the entropy route with a molecularity (what the '
+        'override hands on to Reaction.get_A); the BEP object is built by its constructor, and the BEP laws are '
+        'decided once more at two witness points where the linear relation gives a negative barrier (strongly '
+        'exothermic: forward, strongly endothermic: reverse), so that a comparison of the barrier with zero has an '
+        'answer; dimensional clamps are compared as maxima over argument sets (a positive factor R T may stand inside '
+        'or outside the maximum).')
     run.assumptions = ['np.max of symbolic scalars is an uninterpreted extremum of the set of its arguments',
+                       'T, T2, kB, h, Na and unit factors are positive (a factor of them goes through a maximum)',
+                       'BEP witness points: R T = 1 kcal/mol, slope 0.3, intercept 2 kcal/mol, dH = -30 / +30 kcal/mol',
                        'species getters uninterpreted; unit model verified by C12']
     run.undecided = ['positivity of A as a numeric fact', 'which reactants count as surface species for arbitrary '
                      'user phase objects']
     n = clamp(run, repo)
-    run.floor('clamp instances', n, 16)
+    run.floor('clamp instances', n, 60)
     n = bep_rules(run, repo)
-    run.floor('BEP instances', n, 40)
+    run.floor('BEP instances', n, 120)
     n = preexp(run, repo)
-    run.floor('pre-exponential instances', n, 40)
+    run.floor('pre-exponential instances', n, 90)
 
 
 B_ = 'pmutt/reaction/bep.py'
@@ -643,8 +653,10 @@ MUTANTS = [
                (R_, "            site_dens = []\n            for reactant, stoich in zip(self.reactants, self.reactants_stoich):\n                # Skip species without a catalyst site\n                try:\n                    site_den = reactant.cat_site.site_density", "            site_dens = self._site_dens\n            for reactant, stoich in zip(self.reactants, self.reactants_stoich):\n                # Skip species without a catalyst site\n                try:\n                    site_den = reactant.cat_site.site_density")]},
     {'name': 'BEP barrier clipped at zero', 'expect': ('ALG.bep-difference', 'BEP.get_E_act'),
      'edits': [(B_, "        E_act = adj_slope * descriptor_val + self.intercept\n", "        E_act = adj_slope * descriptor_val + self.intercept\n        if E_act < 0.:\n            E_act = 0.\n")]},
-    {'name': 'Surface get_HoRT_act remembers its first answer per direction', 'expect': ('REF.clamp', 'SurfaceReaction.get_HoRT_act'),
-     'edits': [(O_, "        act = self.transition_state is not None\n        return np.max([\n            0.,\n            super().get_delta_HoRT(rev=rev, act=act, **kwargs),\n            super().get_delta_HoRT(rev=rev, act=False, **kwargs)\n        ])", "        act = self.transition_state is not None\n        try:\n            return self._HoRT_act[rev]\n        except AttributeError:\n            self._HoRT_act = {}\n        except KeyError:\n            pass\n        self._HoRT_act[rev] = np.max([\n            0.,\n            super().get_delta_HoRT(rev=rev, act=act, **kwargs),\n            super().get_delta_HoRT(rev=rev, act=False, **kwargs)\n        ])\n        return self._HoRT_act[rev]")]},
+    {'name': 'Chemkin get_HoRT_act remembers its first answer per direction',
+     'expect': ('REF.clamp', 'ChemkinReaction.get_HoRT_act'),
+     'edits': [(R_, "        self.gas_phase = self._is_gas_phase()\n", "        self.gas_phase = self._is_gas_phase()\n        self._HoRT_act = {}\n"),
+               (R_, "        return np.max([\n            0.,\n            super().get_delta_HoRT(rev=rev, act=act, **kwargs),\n            super().get_delta_HoRT(rev=rev, act=False, **kwargs)\n        ])", "        try:\n            return self._HoRT_act[rev]\n        except KeyError:\n            pass\n        self._HoRT_act[rev] = np.max([\n            0.,\n            super().get_delta_HoRT(rev=rev, act=act, **kwargs),\n            super().get_delta_HoRT(rev=rev, act=False, **kwargs)\n        ])\n        return self._HoRT_act[rev]")]},
 ]
 # behaviour-preserving rewrites of the same round (whitebox2/C09_B1..B3), reduced: must stay silent
 EQUIV = [
